@@ -177,6 +177,53 @@ Fixpoint run_ops (ix : index_t) (lg : list str) (ops : list op) : index_t * list
     (ix2, lg2, ob :: obs)
   end.
 
+(* ---- the byte-slice entry points InternBytes / QueryBytes ----
+   The caller owns mutable buffers (a heap nat -> str) and may overwrite them between calls.
+   InternBytes aliases the buffer as a string for the duration of the call; internSlow clones
+   its argument BEFORE it builds the index key and before it appends to the log, so what the
+   table keeps is the content at call time (a value), never a reference into the heap.  BWrite
+   is the caller overwriting one of its buffers; it is not a table operation and has no
+   observation. *)
+Inductive bop :=
+| BOp (o : op)
+| BInternBytes (b : nat)
+| BQueryBytes (b : nat)
+| BWrite (b : nat) (s : str).
+Definition heap := nat -> str.
+Definition heap_empty : heap := fun _ => [].
+Definition heap_set (hp : heap) (b : nat) (s : str) : heap :=
+  fun x => if Nat.eqb x b then s else hp x.
+
+Fixpoint run_bops (hp : heap) (ix : index_t) (lg : list str) (ops : list bop)
+  : index_t * list str * list obs :=
+  match ops with
+  | [] => (ix, lg, [])
+  | BWrite b s :: r => run_bops (heap_set hp b s) ix lg r
+  | o :: r =>
+    let '(ix1, lg1, ob) :=
+      match o with
+      | BOp (OIntern s) => intern_seq ix lg s
+      | BOp (OQuery s) => let '(id, ok) := query ix s in (ix, lg, RQuery id ok)
+      | BOp (OValue id) => (ix, lg, RValue (value lg id))
+      | BInternBytes b => intern_seq ix lg (hp b)
+      | BQueryBytes b => let '(id, ok) := query ix (hp b) in (ix, lg, RQuery id ok)
+      | BWrite _ _ => (ix, lg, RStuck)
+      end in
+    let '(ix2, lg2, obs) := run_bops hp ix1 lg1 r in
+    (ix2, lg2, ob :: obs)
+  end.
+
+(* the same history with every byte-slice call replaced by the string call on the content the
+   buffer had when the call was made, and the caller's writes dropped *)
+Fixpoint resolve_bops (hp : heap) (ops : list bop) : list op :=
+  match ops with
+  | [] => []
+  | BOp o :: r => o :: resolve_bops hp r
+  | BInternBytes b :: r => OIntern (hp b) :: resolve_bops hp r
+  | BQueryBytes b :: r => OQuery (hp b) :: resolve_bops hp r
+  | BWrite b s :: r => resolve_bops (heap_set hp b s) r
+  end.
+
 (* ---- correspondence ---- *)
 Definition obs_eqb (a b : obs) : bool :=
   match a, b with
@@ -201,6 +248,9 @@ Fixpoint list_list_N_eqb (a b : list str) : bool :=
 Inductive intern_case :=
 (* one table used sequentially: the operations and what the implementation answered *)
 | CSeq (ops : list op) (observed : list obs)
+(* one table used sequentially through both the string and the byte-slice entry points, the
+   caller overwriting its buffers between calls *)
+| CSeqB (bops : list bop) (observed : list obs)
 (* one table used by several goroutines: the strings each interned, the ids each got, and the
    log read back afterwards with Value(1..n).  The model is run under the schedule in which
    the leaders commit in the order of the observed log; that fixes every id. *)
@@ -214,6 +264,8 @@ Definition intern_chk (c : intern_case) : bool :=
   match c with
   | CSeq ops observed =>
     let '(_, _, o) := run_ops idx_empty [] ops in obs_list_eqb o observed
+  | CSeqB bops observed =>
+    let '(_, _, o) := run_bops heap_empty idx_empty [] bops in obs_list_eqb o observed
   | CConc progs ids lg =>
     let '(ix, mlg, _) := run_ops idx_empty [] (map OIntern lg) in
     list_list_N_eqb mlg lg &&
